@@ -144,7 +144,43 @@ def _fit(model, da, Y=None):
     raise KeyError(model)
 
 
+def eval_list(c):
+    """list input whose items miss whole samples: same positions -> as if deleted beforehand; different positions ->
+    refused, or treated as deleted from every item, never paired across different time steps"""
+    rng = np.random.default_rng(c["seed"])
+    da = _data(rng)
+    nn = da.sizes["time"]
+    a = da.copy()
+    b = (da.isel(lat=0, drop=True) * 0.7 + 0.2 * rng.standard_normal((nn, da.sizes["lon"]))).copy()
+    for s in c["samples"]:
+        a[s] = np.nan
+    for s in c["samples_b"]:
+        b[s] = np.nan
+    msgs = []
+    union = sorted(set(c["samples"]) | set(c["samples_b"]))
+    keep = [t for t in range(nn) if t not in union]
+    ref = xeofs.single.EOF(n_modes=2, solver="full").fit([da.isel(time=keep), b.isel(time=keep)], "time")
+    try:
+        m = xeofs.single.EOF(n_modes=2, solver="full").fit([a, b], "time")
+    except ValueError:
+        if list(c["samples"]) == list(c["samples_b"]):
+            msgs.append("items missing the same samples were refused")
+        return (not msgs), "; ".join(msgs)
+    sv, svr = m.singular_values().values, ref.singular_values().values
+    if real.relerr(sv, svr) > 1e-8:
+        msgs.append(f"list items missing samples {c['samples']} / {c['samples_b']}: singular values {sv} differ from the model fitted after deleting those samples from every item {svr}")
+    sc = m.scores().sel(time=da.time.values[keep]).transpose("time", "mode").values
+    scr = ref.scores().transpose("time", "mode").values
+    if sc.shape == scr.shape and real.relerr(np.abs(sc), np.abs(scr)) > 1e-8:
+        msgs.append("scores at the remaining samples differ from the model fitted on pre-deleted data")
+    if np.isnan(sc).any():
+        msgs.append("NaN scores at samples that are valid in every item")
+    return (not msgs), "; ".join(msgs[:3])
+
+
 def eval_case(c):
+    if c.get("kind") == "list":
+        return eval_list(c)
     rng = np.random.default_rng(c["seed"])
     da = _data(rng)
     nn = da.sizes["time"]
@@ -283,6 +319,8 @@ def bounded_cases(tier, seed):
             cases.append(dict(model="MCA", features=list(f), samples=list(s), keep=True))
     cases.append(dict(model="MCA", features=[], samples=[2], samples_y=[4], keep=True))
     cases.append(dict(model="MCA", features=[], samples=[1, 2], samples_y=[2, 5], keep=True))
+    for sa, sb in (([3], [3]), ([1, 4], [1, 4]), ([3], [5]), ([0, 2], [2, 6]), ([], [4])):
+        cases.append(dict(kind="list", model="EOF-list", features=[], samples=sa, samples_b=sb, keep=True))
     for i, c in enumerate(cases):
         c["seed"] = int(seed) * 1000 + i
     if tier == "quick":
@@ -299,6 +337,9 @@ def run_bounded(res, tier, seed):
             sig["new_missing_subset_of_fitted"] = set(c["other_mask"]) < set(c["features"])
         if c.get("samples_y") is not None:
             sig["same_count"] = len(c["samples_y"]) == len(c["samples"])
+        if c.get("kind") == "list":
+            sig["kind"] = "list-items-missing-samples"
+            sig["same_positions"] = list(c["samples"]) == list(c["samples_b"])
         try:
             ok, detail = eval_case(c)
         except Exception as e:  # noqa: BLE001
@@ -325,6 +366,17 @@ def run(tier, seed):
     res.trusted = ["CPython on proxies", "vf/sym/ldom.py", "z3 (path feasibility)"]
     agg = Agg(res, "C06")
     deductive(res, agg)
+    # list inputs: items are combined by label, never by position (real Concatenator / chain on structural proxies, shared with C02)
+    from props.C02 import deductive as c02_structures
+    class _OnlyJoin:
+        def __init__(self, agg):
+            self.agg = agg
+
+        def vc(self, function, clause, r, config=""):
+            if "combined by label" in clause or "cut from the i-th block" in clause or clause in ("within-supported-subset", "has-returning-path"):
+                return self.agg.vc(function, clause, r, config)
+            return True
+    c02_structures(res, _OnlyJoin(agg), only_lists=True)
     agg.flush()
     run_bounded(res, tier, seed)
     return res
